@@ -156,33 +156,46 @@ func S(s string) *string { return &s }
 func I(i int32) *int32   { return &i }
 func B(b bool) *bool     { return &b }
 
-// CamelCase is the oracle's own rendering of gogo's CamelCase for the names
-// admitted by the grammar (UpperCamel words or lower_snake).
+// CamelCase is the oracle's own rendering of the Go name protoc-gen-gogo gives to
+// a proto name: an underscore followed by a lower-case letter is dropped, the
+// first letter, a letter after a dropped underscore and a lower-case letter
+// that follows a digit are capitalised; other underscores (before a digit, an
+// upper-case letter, or at the end) stay; a leading underscore becomes X.
 func CamelCase(name string) string {
 	if name == "" {
 		return ""
 	}
-	if name[0] >= 'A' && name[0] <= 'Z' && !strings.Contains(name, "_") {
-		return name
-	}
+	isLow := func(b byte) bool { return b >= 'a' && b <= 'z' }
+	isDig := func(b byte) bool { return b >= '0' && b <= '9' }
 	var sb strings.Builder
-	up := true
-	for _, r := range name {
-		if r == '_' {
-			up = true
+	i := 0
+	if name[0] == '_' {
+		sb.WriteByte('X')
+		i++
+	}
+	for ; i < len(name); i++ {
+		c := name[i]
+		if c == '_' && i+1 < len(name) && isLow(name[i+1]) {
 			continue
 		}
-		if up && r >= 'a' && r <= 'z' {
-			r = r - 'a' + 'A'
+		if isDig(c) {
+			sb.WriteByte(c)
+			continue
 		}
-		up = false
-		sb.WriteRune(r)
+		if isLow(c) {
+			c = c - 'a' + 'A'
+		}
+		sb.WriteByte(c)
+		for i+1 < len(name) && isLow(name[i+1]) {
+			i++
+			sb.WriteByte(name[i])
+		}
 	}
 	return sb.String()
 }
 
 // SnakeCase is the oracle's own snake_case: an underscore goes before an
-// upper-case letter that follows a lower-case letter or digit, and before the
+// upper-case letter that follows a lower-case letter, and before the
 // last letter of an upper-case run that is followed by a lower-case letter
 // (acronym boundary); lower_snake names are returned unchanged.
 func SnakeCase(name string) string {
@@ -191,12 +204,11 @@ func SnakeCase(name string) string {
 	}
 	isUp := func(b byte) bool { return b >= 'A' && b <= 'Z' }
 	isLow := func(b byte) bool { return b >= 'a' && b <= 'z' }
-	isDig := func(b byte) bool { return b >= '0' && b <= '9' }
 	var sb strings.Builder
 	for i := 0; i < len(name); i++ {
 		c := name[i]
 		if isUp(c) {
-			if i > 0 && (isLow(name[i-1]) || isDig(name[i-1]) || (isUp(name[i-1]) && i+1 < len(name) && isLow(name[i+1]))) {
+			if i > 0 && (isLow(name[i-1]) || (isUp(name[i-1]) && i+1 < len(name) && isLow(name[i+1]))) {
 				sb.WriteByte('_')
 			}
 			c = c - 'A' + 'a'
